@@ -12,9 +12,11 @@ import (
 	"seehuhn.de/go/sfnt/cmap"
 	"seehuhn.de/go/sfnt/glyf"
 	"seehuhn.de/go/sfnt/glyph"
+	"seehuhn.de/go/sfnt/opentype/anchor"
 	"seehuhn.de/go/sfnt/opentype/classdef"
 	"seehuhn.de/go/sfnt/opentype/coverage"
 	"seehuhn.de/go/sfnt/opentype/gtab"
+	"seehuhn.de/go/sfnt/opentype/markarray"
 	"seehuhn.de/go/sfnt/verifharness/vlib"
 )
 
@@ -252,6 +254,32 @@ func lookupsSx(ll gtab.LookupList) (vlib.Sx, bool) {
 		subs := vlib.List{}
 		for _, s := range l.Subtables {
 			switch t := s.(type) {
+			case *gtab.Gpos3_1:
+				cov, o := covList(t.Cov)
+				ok = ok && o
+				recs := vlib.List{}
+				for _, r := range t.Records {
+					recs = append(recs, vlib.L(vlib.L(vlib.Int(int(r.Entry.X)), vlib.Int(int(r.Entry.Y))),
+						vlib.L(vlib.Int(int(r.Exit.X)), vlib.Int(int(r.Exit.Y)))))
+				}
+				subs = append(subs, vlib.L(vlib.Atom("p31"), gidsSx(cov), recs))
+			case *gtab.Gpos4_1:
+				mc, o1 := covList(t.MarkCov)
+				bc, o2 := covList(t.BaseCov)
+				ok = ok && o1 && o2
+				ma := vlib.List{}
+				for _, m := range t.MarkArray {
+					ma = append(ma, vlib.L(vlib.Int(int(m.Class)), vlib.Int(int(m.X)), vlib.Int(int(m.Y))))
+				}
+				ba := vlib.List{}
+				for _, row := range t.BaseArray {
+					rl := vlib.List{}
+					for _, a := range row {
+						rl = append(rl, vlib.L(vlib.Int(int(a.X)), vlib.Int(int(a.Y))))
+					}
+					ba = append(ba, rl)
+				}
+				subs = append(subs, vlib.L(vlib.Atom("p41"), gidsSx(mc), ma, gidsSx(bc), ba))
 			case *gtab.ChainedSeqContext1:
 				cov, o := covList(t.Cov)
 				ok = ok && o
@@ -442,6 +470,71 @@ func lookupsFromSx(x vlib.Sx) (gtab.LookupList, error) {
 				return nil, fmt.Errorf("bad subtable")
 			}
 			kind, _ := vlib.AsAtom(sp[0])
+			if kind == "p31" {
+				cov, err := gidsFromSx(sp[1])
+				if err != nil || len(sp) != 3 {
+					return nil, fmt.Errorf("bad p31")
+				}
+				rl, err := vlib.AsList(sp[2])
+				if err != nil {
+					return nil, err
+				}
+				st := &gtab.Gpos3_1{Cov: covFromList(cov)}
+				for _, r := range rl {
+					p, err := vlib.AsList(r)
+					if err != nil || len(p) != 2 {
+						return nil, fmt.Errorf("bad record")
+					}
+					e, e1 := vlib.AsInts(p[0])
+					x, e2 := vlib.AsInts(p[1])
+					if e1 != nil || e2 != nil || len(e) != 2 || len(x) != 2 {
+						return nil, fmt.Errorf("bad record")
+					}
+					st.Records = append(st.Records, gtab.EntryExitRecord{
+						Entry: anchor.Table{X: funit.Int16(e[0]), Y: funit.Int16(e[1])},
+						Exit:  anchor.Table{X: funit.Int16(x[0]), Y: funit.Int16(x[1])}})
+				}
+				lt.Subtables = append(lt.Subtables, st)
+				continue
+			}
+			if kind == "p41" {
+				if len(sp) != 5 {
+					return nil, fmt.Errorf("bad p41")
+				}
+				mc, e1 := gidsFromSx(sp[1])
+				bc, e2 := gidsFromSx(sp[3])
+				ml, e3 := vlib.AsList(sp[2])
+				bl, e4 := vlib.AsList(sp[4])
+				if e1 != nil || e2 != nil || e3 != nil || e4 != nil {
+					return nil, fmt.Errorf("bad p41")
+				}
+				st := &gtab.Gpos4_1{MarkCov: covFromList(mc), BaseCov: covFromList(bc)}
+				for _, m := range ml {
+					v, err := vlib.AsInts(m)
+					if err != nil || len(v) != 3 {
+						return nil, fmt.Errorf("bad mark record")
+					}
+					st.MarkArray = append(st.MarkArray, markarray.Record{Class: uint16(v[0]),
+						Table: anchor.Table{X: funit.Int16(v[1]), Y: funit.Int16(v[2])}})
+				}
+				for _, row := range bl {
+					rl, err := vlib.AsList(row)
+					if err != nil {
+						return nil, err
+					}
+					an := make([]anchor.Table, 0, len(rl))
+					for _, a := range rl {
+						v, err := vlib.AsInts(a)
+						if err != nil || len(v) != 2 {
+							return nil, fmt.Errorf("bad anchor")
+						}
+						an = append(an, anchor.Table{X: funit.Int16(v[0]), Y: funit.Int16(v[1])})
+					}
+					st.BaseArray = append(st.BaseArray, an)
+				}
+				lt.Subtables = append(lt.Subtables, st)
+				continue
+			}
 			if kind == "h1" || kind == "h2" || kind == "h3" {
 				st, err := chainFromSx(kind, sp)
 				if err != nil {
